@@ -124,6 +124,10 @@ type KnownFinding struct {
 	What       string `json:"what"`
 	Commit     string `json:"commit,omitempty"`
 	Detail     string `json:"detail,omitempty"`
+	// InputsFile (relative to /verif): for a bounded obligation, the committed list of
+	// the specific failing inputs that make up this finding; a failing input that is
+	// not listed is still reported as a violation.
+	InputsFile string `json:"inputs_file,omitempty"`
 }
 
 type Report struct {
